@@ -114,21 +114,36 @@ def lpNextInt (rem : Bytes) : Option (Int × Bytes) :=
     | none => none
     | some v => some (v, rem')
 
-/-- the first `numElements` elements (`for i < NumElements() { Next() }`) -/
+/-- elements up to the `0xFF` end marker: what the count field 65535 ("unknown",
+    65535 or more elements) asks for, as Redis' `lpLength` walks the listpack
+    (repaired: the count field used to be taken literally, so every element past
+    the 65535th was silently dropped). Fuel = data length. -/
+def lpUntilEnd : Nat → Bytes → Option (List Bytes)
+  | 0, _ => none
+  | fuel+1, rem =>
+    match rem with
+    | [] => none
+    | b :: _ =>
+      if b = 0xFF then some [] else
+      match lpNext rem with
+      | none => none
+      | some (e, rem') =>
+        match lpUntilEnd fuel rem' with
+        | none => none
+        | some es => some (e :: es)
+
+/-- all elements: `NumElements()` calls of `Next`, where `NumElements` is the count
+    field, or the walked length when the field says 65535 -/
 def lpAll (data : Bytes) : Option (List Bytes) :=
   match lpNew data with
   | none => none
-  | some (n, rem) => (lpTake n rem).map (·.1)
+  | some (n, rem) => if n = 65535 then lpUntilEnd (data.length + 1) rem else (lpTake n rem).map (·.1)
 
 /-- hash / zset listpack: an odd element count is an error -/
 def lpPairs (data : Bytes) : Option (List (Bytes × Bytes)) :=
-  match lpNew data with
+  match lpAll data with
   | none => none
-  | some (n, rem) =>
-    if n % 2 ≠ 0 then none else
-    match lpTake n rem with
-    | none => none
-    | some (es, _) => some (pairUp es)
+  | some es => if es.length % 2 ≠ 0 then none else some (pairUp es)
 
 /-! ## encoder (specification) -/
 
@@ -197,7 +212,7 @@ def lpBlob (es : List LPEntry) : Bytes :=
   let body := lpEntries es
   leN 4 (6 + body.length + 1) ++ leN 2 (if es.length < 65535 then es.length else 65535) ++ body ++ [0xFF]
 
-def lpWf (es : List LPEntry) : Prop := (∀ e ∈ es, e.wf) ∧ es.length < 65535
+def lpWf (es : List LPEntry) : Prop := ∀ e ∈ es, e.wf
 
 instance lpWf.dec (es : List LPEntry) : Decidable (lpWf es) := by unfold lpWf; exact inferInstance
 
